@@ -1,1 +1,137 @@
+(* C18 — property theorems about the model of sharepoint_io/client.py.  Only statements closed by `exact`,
+   each followed by Print Assumptions.  Quantification: every env (oracles str.lower, fnmatch, fromisoformat,
+   quote; constants), every library tree T, every paging P (arbitrary partition of every folder's children
+   into pages, server-chosen nextLinks), every start state, every sufficient fuel; no size bound. *)
+From Coq Require Import ZArith List Bool Lia.
 From S2T Require Import Lib.PyStr C18.Model C18.Proofs.
+Local Open Scope nat_scope.
+
+(* _walk_drive_items over ANY folder of ANY library: whenever the world serves the folder's sub-table
+   (its pages and, recursively, its sub-folders' pages) the walk returns exactly the reference listing
+   (every file once, with its parent path, nothing else, in order), all requests succeed, and
+   OutOfFuel is not returned for any fuel >= need.  Any drive, any folder id, any parent path. *)
+Theorem C18_walk_exact :
+  forall (E : env) (site : str) (drive : option str) (P : paging) (oid : option str) (ch : list node)
+         (path : str) (w : world) (s : st) (t : str) (n0 fuel : nat),
+    nonempty (base E) = true ->
+    serves w n0 t (folder_entries E site drive P oid ch ++ flat_map (node_entries E site drive P) ch) ->
+    cuts_ok (P oid) = true -> forallb ids_ok ch = true -> forallb (links_ok P) ch = true ->
+    n0 <= nreq s -> tok s = Some t -> need P oid ch <= fuel ->
+    exists l, run E w (walk E fuel site drive oid path) s = (Ok (spec_files E path ch), adv s (api l)).
+Proof. intros E site drive P oid ch path w s t n0 fuel Hb. exact (walk_any E site drive P Hb oid ch path w s t n0 fuel). Qed.
+Print Assumptions C18_walk_exact.
+
+(* list_all_files against a healthy endpoint, from every cache state a client can be in (nothing cached,
+   token cached, token and site id cached): the complete reference listing; afterwards both caches hold
+   the server's values and every response opened was closed *)
+Theorem C18_list_all_files_exact :
+  forall (E : env) (tk site : str) (P : paging) (T : list node) (w : world) (n0 : nat) (s : st) (fuel : nat),
+    server_wf E site None P T = true -> nonempty tk = true ->
+    healthy_from w n0 E tk (server_table E site None P T) -> n0 <= nreq s -> cache_ok tk site s ->
+    need P None T <= fuel ->
+    exists s', run E w (list_all_files E fuel) s = (Ok (spec_files E [] T), s')
+               /\ tok s' = Some tk /\ sid s' = Some site /\ balanced s s' /\ nreq s <= nreq s'.
+Proof. intros E tk site P T w n0 s fuel Hwf Htk. exact (list_all_ok E tk site P T Hwf Htk w n0 s fuel). Qed.
+Print Assumptions C18_list_all_files_exact.
+
+(* list_files_filtered (whole drive): exactly the files of the reference listing that satisfy the
+   declarative predicate spec_matches, in order — provided no timestamp/bound pair mixes naive and aware
+   datetimes (otherwise Python raises TypeError, which the model reproduces) *)
+Theorem C18_filtered_is_filter_of_walk :
+  forall (E : env) (tk site : str) (P : paging) (T : list node) (w : world) (n0 : nat) (s : st) (fuel : nat)
+         (f : ffilter),
+    server_wf E site None P T = true -> nonempty tk = true ->
+    healthy_from w n0 E tk (server_table E site None P T) -> n0 <= nreq s -> cache_ok tk site s ->
+    need P None T <= fuel -> folder_paths f = [] ->
+    forallb (comparable E f) (spec_files E [] T) = true ->
+    exists s', run E w (list_files_filtered E fuel f None) s
+               = (Ok (filter (spec_matches E f) (spec_files E [] T)), s') /\ balanced s s'.
+Proof.
+  intros E tk site P T w n0 s fuel f Hwf Htk Hw Hn Hc Hf Hp Hcmp.
+  destruct (list_all_ok E tk site P T Hwf Htk w n0 s fuel Hw Hn Hc Hf) as (s' & R & _ & _ & Hb & _).
+  exists s'. rewrite (filtered_as_all E w fuel f s Hp), R.
+  rewrite (filter_matches_filter E f (spec_matches E f)); [auto|].
+  intros m Hm. apply matches_spec. rewrite forallb_forall in Hcmp. exact (Hcmp m Hm).
+Qed.
+Print Assumptions C18_filtered_is_filter_of_walk.
+
+(* FileFilter.matches = created in [after, before) and modified in [after, before) and name ends with one of
+   the extensions after lower-casing both and one pattern matches the FULL path *)
+Theorem C18_matches_spec :
+  forall (E : env) (f : ffilter) (m : fmeta),
+    comparable E f m = true ->
+    matches E f m = Ok (range_spec E (created_after f) (created_before f) (m_created m)
+                        && range_spec E (modified_after f) (modified_before f) (m_modified m)
+                        && (match extensions f with
+                            | [] => true
+                            | exts => existsb (fun e => endswith (lower E (m_name m)) (lower E e)) exts
+                            end)
+                        && (match path_patterns f with
+                            | [] => true
+                            | pats => existsb (fun p => glob E (full_path m) p) pats
+                            end)).
+Proof. exact matches_spec. Qed.
+Print Assumptions C18_matches_spec.
+
+(* inclusive-after, exclusive-before: a timestamp equal to the bound passes `after` and fails `before` *)
+Theorem C18_bounds_inclusive_exclusive :
+  forall d x : dt,
+    (dt_cmp d x = Some Eq -> dt_ge d x = true /\ dt_lt d x = false) /\
+    (dt_cmp d x = Some Gt -> dt_ge d x = true /\ dt_lt d x = false) /\
+    (dt_cmp d x = Some Lt -> dt_ge d x = false /\ dt_lt d x = true).
+Proof. exact bounds_meaning. Qed.
+Print Assumptions C18_bounds_inclusive_exclusive.
+
+(* comparing the timestamp truncated to microseconds (what the repaired _parse_iso_datetime hands on) with
+   microsecond bounds gives the same answers as comparing the exact instant *)
+Theorem C18_floor_preserves_bounds :
+  forall x u b : Z, (0 < u)%Z ->
+    ((b <=? x / u) = (b * u <=? x))%Z /\ ((x / u <? b) = (x <? b * u))%Z.
+Proof. exact floor_preserves_bounds. Qed.
+Print Assumptions C18_floor_preserves_bounds.
+
+(* fault containment: for EVERY request index k0 of the healthy run and EVERY fault kind, a fresh client's
+   list_all_files raises the client's own error for exactly that request (status and url of request k0;
+   SharePointAuthError for an unusable token body), every opened response is closed, the caches hold
+   nothing or the values of successful responses, and the run stopped at that request *)
+Theorem C18_fault_contained :
+  forall (E : env) (tk site : str) (P : paging) (T : list node) (fuel : nat),
+    server_wf E site None P T = true -> nonempty tk = true -> need P None T <= fuel ->
+    let wH := healthy E tk (server_table E site None P T) in
+    exists sH, run E wH (list_all_files E fuel) st0 = (Ok (spec_files E [] T), sH) /\
+      forall (k0 : nat) (f : fault), fault_ok f = true -> k0 < nreq sH ->
+        exists it u s',
+          nth_error (urls sH) k0 = Some (it, u)
+          /\ run E (faulty wH k0 (resp_of_fault f)) (list_all_files E fuel) st0 = (Raise (err_of it u f), s')
+          /\ opened s' = closed s' /\ cache_ok tk site s' /\ nreq s' = S k0.
+Proof.
+  intros E tk site P T fuel Hwf Htk Hf wH.
+  destruct (healthy_run E tk site P T Hwf Htk fuel Hf) as [l R].
+  eexists. split; [exact R|]. intros k0 f Hok Hk.
+  exact (fault_all E tk site P T Hwf Htk fuel k0 f l Hf Hok R Hk).
+Qed.
+Print Assumptions C18_fault_contained.
+
+(* retry: after such a failure, calling list_all_files again on the same client (transport healthy from
+   then on) returns the complete listing and leaves no response open *)
+Theorem C18_retry_complete :
+  forall (E : env) (tk site : str) (P : paging) (T : list node) (fuel k0 : nat) (f : fault) (e : err) (s' : st),
+    server_wf E site None P T = true -> nonempty tk = true -> need P None T <= fuel ->
+    let wF := faulty (healthy E tk (server_table E site None P T)) k0 (resp_of_fault f) in
+    run E wF (list_all_files E fuel) st0 = (Raise e, s') -> cache_ok tk site s' -> S k0 <= nreq s' ->
+    exists s'', run E wF (list_all_files E fuel) s' = (Ok (spec_files E [] T), s'') /\ balanced s' s''.
+Proof.
+  intros E tk site P T fuel k0 f e s' Hwf Htk Hf wF _ Hc Hn.
+  exact (retry_ok E tk site P T Hwf Htk fuel k0 (resp_of_fault f) s' Hf Hc Hn).
+Qed.
+Print Assumptions C18_retry_complete.
+
+(* every response opened is closed: for every program over _get_json, EVERY world (any fault sequence, any
+   number of faults) and every start state, opened - closed is unchanged by the run *)
+Theorem C18_responses_closed_always :
+  forall (A : Type) (E : env) (w : world) (p : prog A) (s : st),
+    opened s = closed s -> opened (snd (run E w p s)) = closed (snd (run E w p s)).
+Proof.
+  intros A E w p s H. destruct (run_facts E w p s) as (_ & Hb). unfold balanced in Hb. lia.
+Qed.
+Print Assumptions C18_responses_closed_always.
